@@ -379,6 +379,17 @@ impl DcpsDomainParticipant {
             }
         }
 
+        if self
+            .domain_participant
+            .content_filtered_topic_list
+            .iter()
+            .any(|x| x.related_topic_name == topic_name)
+        {
+            return Err(DdsError::PreconditionNotMet(
+                "Topic still related to some content filtered topic".to_string(),
+            ));
+        }
+
         self.domain_participant
             .locally_created_topic_list
             .retain(|x| x.topic_name != topic_name);
@@ -445,6 +456,35 @@ impl DcpsDomainParticipant {
         participant_handle: &InstanceHandle,
         name: String,
     ) -> DdsResult<()> {
+        if &self.domain_participant.instance_handle != participant_handle {
+            return Err(DdsError::PreconditionNotMet(
+                "Topic can only be deleted from its parent participant".to_string(),
+            ));
+        }
+
+        if !self
+            .domain_participant
+            .content_filtered_topic_list
+            .iter()
+            .any(|x| x.topic_name == name)
+        {
+            return Err(DdsError::AlreadyDeleted);
+        }
+
+        for subscriber in self.domain_participant.user_defined_subscriber_list.iter() {
+            for reader in subscriber.data_reader_list.iter() {
+                if reader.topic_name == name {
+                    return Err(DdsError::PreconditionNotMet(
+                        "Content filtered topic still attached to some data reader".to_string(),
+                    ));
+                }
+            }
+        }
+
+        self.domain_participant
+            .content_filtered_topic_list
+            .retain(|x| x.topic_name != name);
+
         Ok(())
     }
 
